@@ -62,6 +62,22 @@ func c12Scenarios(thorough bool) []*scenario {
 	// two concurrent logins of the same upgradeable user
 	out = append(out, &scenario{Name: "two-logins-same-user-local", Upgrades: "local", Hooks: "fast", Default: 1, Users: c12Users,
 		Clients: [][]cop{{{Kind: "auth", User: "u2", Pw: "pw-two"}}, {{Kind: "auth", User: "u2", Pw: "pw-two"}, {Kind: "auth", User: "u2", Pw: "x"}}}})
+	// the default changes while the agent runs: a record that was upgraded (or is waiting for its
+	// upgrade) becomes upgradeable again and the next login on the idle agent must converge again
+	for _, d2 := range []uint{3, 2} {
+		cfgs := []cfgSpec{{Kind: "valid", Default: 1, Dir: "A"}, {Kind: "valid", Default: d2, Dir: "A"}}
+		who := userSpec{Name: "u2", Pw: "pw-two"}
+		if d2 == 2 {
+			who = userSpec{Name: "u3", Pw: "pw-three"}
+		}
+		out = append(out, &scenario{Name: fmt.Sprintf("default-changes-to-%d-local", d2), Upgrades: "local", Hooks: "fast", Default: 1, Users: c12Users, Cfgs: cfgs,
+			Clients: [][]cop{{{Kind: "auth", User: who.Name, Pw: who.Pw}, {Kind: "sighup", Cfg: 1}, {Kind: "await-cfg", Cfg: 1}, {Kind: "auth", User: who.Name, Pw: who.Pw}}}})
+		if thorough {
+			out = append(out, &scenario{Name: fmt.Sprintf("default-changes-to-%d-all-users-local", d2), Upgrades: "local", Hooks: "fast", Default: 1, Users: c12Users, Cfgs: cfgs,
+				Clients: [][]cop{{{Kind: "auth", User: "u2", Pw: "pw-two"}, {Kind: "auth", User: "u3", Pw: "pw-three"}, {Kind: "sighup", Cfg: 1}, {Kind: "await-cfg", Cfg: 1},
+					{Kind: "auth", User: "u2", Pw: "pw-two"}, {Kind: "auth", User: "u3", Pw: "pw-three"}, {Kind: "auth", User: "u1", Pw: "pw-one"}}}})
+		}
+	}
 	// remote mode with an in-process master
 	out = append(out, &scenario{Name: "remote-master-default1", Upgrades: "remote-master", Default: 1, Users: c12Users,
 		Clients: [][]cop{{{Kind: "auth", User: "u2", Pw: "pw-two"}, {Kind: "auth", User: "u3", Pw: "wrong"}, {Kind: "auth", User: "u1", Pw: "pw-one"}}}})
@@ -161,7 +177,14 @@ func c12Final(s *mc.Sched) []mc.Viol {
 	var v []mc.Viol
 	ctx := "events: " + strings.Join(w.describeEvents(), " | ")
 	logged := map[string]bool{}
+	loggedEver := map[string]bool{}
+	finalDef := sc.Default
 	for _, e := range w.events {
+		if e.Op.Kind == "await-cfg" {
+			// only logins under the configuration in effect at the end count for convergence
+			logged = map[string]bool{}
+			finalDef = sc.Cfgs[e.Op.Cfg].Default
+		}
 		if e.Op.Kind != "auth" {
 			continue
 		}
@@ -169,6 +192,7 @@ func c12Final(s *mc.Sched) []mc.Viol {
 		for _, u := range sc.Users {
 			if u.Name == user && u.Pw == e.Op.Pw {
 				logged[user] = true
+				loggedEver[user] = true
 				// the frontend must have accepted
 				if !strings.HasPrefix(e.Res, "true") {
 					v = append(v, mc.Viol{Key: "right-login-refused:" + e.Op.Via, Desc: fmt.Sprintf("%v -> %s; %s", e.Op, e.Res, ctx)})
@@ -190,7 +214,9 @@ func c12Final(s *mc.Sched) []mc.Viol {
 				v = append(v, mc.Viol{Key: "record-missing-or-renamed:" + label, Desc: fmt.Sprintf("file %s initial=%v final=%v; %s", fn, ok1, ok2, ctx)})
 				continue
 			}
-			wantUpgrade := mode == "local" && logged[u.Name] && u.Set != def
+			// (when the default changed during the run, a record that was logged in under the earlier
+			// default as well may have been rewritten twice and end under its initial set)
+			wantUpgrade := mode == "local" && logged[u.Name] && (u.Set != def || len(sc.Cfgs) > 0 && loggedEver[u.Name])
 			if wantUpgrade && policy != "" && u.Name == "weak" {
 				wantUpgrade = false
 			}
@@ -242,7 +268,7 @@ func c12Final(s *mc.Sched) []mc.Viol {
 		check("replica", w.dirA, c12s.initial, "", sc.Default, "")
 		check("master", c12s.mdir, c12s.minit, "local", sc.Default, "")
 	} else {
-		check("store", w.dirA, c12s.initial, mode, sc.Default, sc.Policy)
+		check("store", w.dirA, c12s.initial, mode, finalDef, sc.Policy)
 	}
 	// with upgrades off (and no management request) nothing at all may be mutated or notified
 	if mode == "" {
